@@ -111,10 +111,19 @@ namespace {
         bytes some_type()
         {
             bytes t = some_type16or128();
-            if ( t.size() == 2 && chance( 8 ) )
+            if ( t.size() == 2 && chance( 12 ) )
             {
-                // the same UUID in its 128 bit form
+                // the same UUID in its 128 bit form ...
                 bytes l{ 0xfb, 0x34, 0x9b, 0x5f, 0x80, 0x00, 0x00, 0x80, 0x00, 0x10, 0x00, 0x00, t[ 0 ], t[ 1 ], 0x00, 0x00 };
+                // ... or a near miss of that form (upper 16 bit or one octet of the base UUID differ): a different UUID
+                if ( chance( 45 ) )
+                {
+                    const int k = rnd( 0, 3 );
+                    if ( k < 2 )
+                        l[ 14 + k ] = static_cast< std::uint8_t >( rnd( 1, 255 ) );
+                    else
+                        l[ rnd( 0, 11 ) ] ^= static_cast< std::uint8_t >( 1 << rnd( 0, 7 ) );
+                }
                 return l;
             }
             return t;
